@@ -207,6 +207,13 @@ class TU:
                 self.typedefs[d['name']] = d
         for d in decls:
             self._index(d)
+        # local names are relabelled with those of the reference tree, by declaration (see sa/alpha.py)
+        from .. import alpha
+        for name, f in self.functions.items():
+            if body(f) is not None:
+                fl = f.get('file') or ''
+                alpha.normalise_c(f, name, recordable=fl.startswith(root + '/') or fl == '<vengine_hdr>')
+        alpha.flush()
 
     def _index(self, n):
         i = n.get('id')
